@@ -242,6 +242,10 @@ type CfgOp struct {
 	BadInvalid bool   `json:"bad_invalid,omitempty"`
 	BadVal     string `json:"bad_val,omitempty"`
 	Current    bool   `json:"current,omitempty"` // badupdate: the first workable setting is given the value it already has
+	// update: the config file cannot grow beyond Fault bytes while this update is applied (the
+	// write of the file fails part-way); Again marks the same update submitted once more afterwards
+	Fault int  `json:"fault,omitempty"`
+	Again bool `json:"again,omitempty"`
 }
 
 type CfgPlan struct {
@@ -259,6 +263,17 @@ func genCfgPlan(r *rand.Rand) *CfgPlan {
 			for k := 0; k < 1+r.IntN(3); k++ {
 				ps := tbl[r.IntN(len(tbl))]
 				op.Set[pathKey(ps.Path)] = ps.vals[r.IntN(len(ps.vals))]
+			}
+			if r.IntN(6) == 0 {
+				// the disk is full while the file is written; two times out of three the operator
+				// saves the same form again once it is not
+				op.Fault = 1 + r.IntN(200)
+				p.Ops = append(p.Ops, op)
+				if r.IntN(3) > 0 {
+					op.Fault, op.Again = 0, true
+					p.Ops = append(p.Ops, op)
+				}
+				continue
 			}
 			p.Ops = append(p.Ops, op)
 		case x == 9 || x == 8 && r.IntN(2) == 0:
@@ -383,6 +398,11 @@ func runCfgPlan(t *testing.T, planAny any, ctl Ctl) *Result {
 				continue
 			}
 			fv, ok := fileValue(ps.Kind, v)
+			if ok && fv != base[k] {
+				// read straight from the file, not through the package's loader: this is what another
+				// process (the next start) finds
+				res.violate("C17.a", "file-holds-other-value: "+k, "the saved value of %s is %s, the file holds %s [history: %s]", k, base[k], fv, strings.Join(hist, "; "))
+			}
 			if ov, has := override[k]; has && ok && fv == ov && ov != base[k] {
 				res.violate("C17.c", "override-written-to-file: "+k, "the file holds the command-line value %s of %s (base value %s) [history: %s]", ov, k, base[k], strings.Join(hist, "; "))
 			}
@@ -405,7 +425,24 @@ func runCfgPlan(t *testing.T, planAny any, ctl Ctl) *Result {
 				desc = append(desc, fmt.Sprintf("%s=%v", k, dv))
 			}
 			hist = append(hist, "update "+strings.Join(desc, ","))
+			restoreLimit := func() {}
+			if op.Fault > 0 {
+				hist[len(hist)-1] += fmt.Sprintf(" (config file limited to %d bytes)", op.Fault)
+				restoreLimit = setFsizeLimit(uint64(op.Fault))
+			}
+			if op.Again {
+				hist[len(hist)-1] += " (again)"
+				res.Probes["update_again_after_persist_fault"]++
+			}
 			st, err := config.UpdatePartialFromConfig(cfg, doc)
+			restoreLimit()
+			if op.Fault > 0 && (err != nil || st == config.UpdateStatusFailed) {
+				// refused because the file could not be written: nothing was saved, nothing changes
+				res.Faults["persist_short_write"]++
+				check("update refused for a failing file write")
+				checkFile()
+				continue
+			}
 			// the one combination of workable values the process cannot start under: the dashboard
 			// needs the API (main refuses to start with the API disabled and the dashboard enabled)
 			after := func(k string) string {
@@ -1038,9 +1075,24 @@ func genCompPlan(r *rand.Rand, faults bool) *CompPlan {
 		p.Rapid = true
 		p.Destroy = ""
 		p.Changes = nil
+		// half of the bursts change one and the same setting every time
+		same := -1
+		if r.IntN(2) == 0 {
+			same = r.IntN(4)
+		}
+		if r.IntN(2) == 0 {
+			// and in half of them one of the first asynchronous tasks (the janitor, a notification) is
+			// held back at some point of its early life until everything else has happened
+			p.Pol.DelayTask = 1 + r.IntN(3)
+			p.Pol.DelayAt = 1 + r.IntN(7)
+		}
 		for i := 0; i < 2+r.IntN(3); i++ {
 			var doc string
-			switch r.IntN(4) {
+			kind := r.IntN(4)
+			if same >= 0 {
+				kind = same
+			}
+			switch kind {
 			case 0:
 				doc = fmt.Sprintf(`{"cache":{"max_cache_size":"%dB"}}`, 1000+r.IntN(9)*4096)
 			case 1:
